@@ -201,6 +201,11 @@ def construct_case(chk, rng, mode=None):
         if not isinstance(q, list) or q[0] != uc or q[1] != tc or \
                 val(q[2]) != p["rate"]:
             bad.append("quotation inconsistent")
+        iq = x.get("iquot")
+        if not isinstance(iq, list) or iq[0] != tc or iq[1] != uc or \
+                iq[2].get("k") != "N" or val(iq[2]) * p["rate"] != 1:
+            bad.append("inverse quotation %s is not (%s, %s, 1 / rate)" %
+                       (iq, tc, uc))
         if bad:
             mech = "normal-form" if any("magnitude" in b for b in bad) \
                 else "rate-value"
